@@ -255,7 +255,7 @@ CHECKS = {
              "strands, self and non-self - and PalsTrace.tla judges every hit (inside both sequences, both lengths >= "
              "minimum, error <= 1 - minimum identity, and for a sample of hits score <= the optimal global alignment "
              "score of its regions under +1/-3/-3) and requires every planted copy to be recovered by the pass of its "
-             "strand, and no trivial self hit. PalsSelf.tla states the geometry of filter tubes, the merger's self-comparison guard and the aligner's band around the main diagonal (negative control: the guard as found, refuted); self comparisons over 45 consecutive lengths with a tandem repeat bind it to the code. Short repeats (1.2 x minimum) with substitutions near their ends are planted too (under identity thresholds from 0.9: below, the unchanged tree loses about 1 in 150 of them - a listed finding whose recorded comparison is repeated and judged in every run), and a quarter of the copies carry one gap run of up to MaxIGap letters.",
+             "strand, and no trivial self hit. PalsSelf.tla states the geometry of filter tubes, the merger's self-comparison guard and the aligner's band around the main diagonal (negative control: the guard as found, refuted); self comparisons over 45 consecutive lengths with a tandem repeat bind it to the code. Short repeats (1.2 x minimum) with substitutions near their ends are planted too (under identity thresholds from 0.9: below, the unchanged tree loses about 1 in 150 of them - a listed finding whose recorded comparison is repeated and judged in every run), and a quarter of the copies carry one gap run of up to MaxIGap letters. Recovered = some hit overlaps more than half of the copy on both axes. Two fixed series (constant random streams, the same in every run, every member recovered by the tree as received) cover boundary behaviour that random drawing would make flaky: copies with a run of exactly MaxIGap letters in their middle, and inverted repeats met by the complement pass after the forward pass left a word in an open filter tube.",
         note="Trusted: the driver's planting of repeats and coordinate bookkeeping. The score bound is judged for a sample "
              "of hits with regions <= 170 letters; recall is judged for copies >= 1.5 x minimum length with at most a third "
              "of the allowed differences.",
